@@ -624,6 +624,9 @@ func runCore(seed int64, nHist, nOps int, out *bufio.Writer, thorough bool) *cor
 			w.observe(dst)
 			stats.OpHist["bigTamperJoin"]++
 		}
+		if maxOps >= 0 && ops > maxOps {
+			ops = maxOps // same PRNG prefix: the history is a prefix of the full one
+		}
 		for k := 0; k < ops; k++ {
 			n := len(w.reps)
 			i := r.Intn(n)
